@@ -3,6 +3,7 @@ package c18
 
 import (
 	"fmt"
+	"math"
 	"math/bits"
 	"sort"
 	"testing"
@@ -10,6 +11,7 @@ import (
 	"github.com/welllog/golib/algz"
 	"pgregory.net/rapid"
 
+	"verif/harness/internal/g"
 	"verif/harness/internal/pb"
 )
 
@@ -37,7 +39,13 @@ type knapCase struct {
 	VMul    int // every value is multiplied by this (0 and 1: as drawn); totals stay below 2^62
 }
 
-var valueScales = []int{1, 1, 1, 1, 1, 1000, 1 << 15, 1<<16 + 1, 1 << 28, 1<<31 - 1, 1 << 31, 1<<32 + 1, 1 << 40, 1 << 55}
+var valueScales = func() []int {
+	small := []int{1, 1, 1, 1, 1, 1000, 1 << 15, 1<<16 + 1, 1 << 24}
+	if math.MaxInt == math.MaxInt32 { // 32-bit int: totals (at most 96 times the scale) stay below 2^31
+		return small
+	}
+	return append(small, g.FitInt([]int64{1 << 28, 1<<31 - 1, 1 << 31, 1<<32 + 1, 1 << 40, 1 << 55})...)
+}()
 
 func genItems(t *rapid.T, maxN int, zeroW bool) []item {
 	n := rapid.OneOf(rapid.IntRange(0, 6), rapid.IntRange(0, maxN)).Draw(t, "n")
@@ -125,7 +133,7 @@ func runKnap(c knapCase, r *pb.Rec) error {
 	}
 	mul := max(c.VMul, 1)
 	for _, it := range c.Items {
-		if it.W < 0 || it.V < 1 || it.V > 8 || mul > 1<<55 {
+		if it.W < 0 || it.V < 1 || it.V > 8 || int64(mul) > 1<<55 {
 			return nil
 		}
 	}
@@ -183,8 +191,8 @@ func runKnap(c knapCase, r *pb.Rec) error {
 	r.ClassIf(replaced, "tie-breaker replaced")
 	r.ClassIf(heavy, "item heavier than the limit")
 	r.ClassIf(n == 0, "empty input")
-	r.ClassIf(best*mul >= 1<<31, "optimum total value >= 2^31")
-	r.ClassIf(best > 0 && mul >= 1<<40, "item values >= 2^40")
+	r.ClassIf(int64(best)*int64(mul) >= 1<<31, "optimum total value >= 2^31")
+	r.ClassIf(best > 0 && int64(mul) >= 1<<40, "item values >= 2^40")
 	r.NonTrivialIf(n >= 4 && ties && (replaced || c.Breaker == 0))
 	return nil
 }
